@@ -28,7 +28,11 @@ CONFIGS = {
     "G": dict(Keys={1, 2}, Nodes={1, 2, 3}, Sources={0, 1}, F=2, Times={0, 1, 2, 3}, Counters={0}, MaxOps=4),
     "H": dict(Keys={1, 2}, Nodes={1, 2}, Sources={0, 1}, F=3, Times={0, 1, 2, 3, 4}, Counters={0}, MaxOps=4),
 }
-TIERS = {"quick": ["A", "AD", "B", "C", "P", "N3", "D3"], "thorough": ["A", "AD", "B", "C", "P", "N3", "D3", "D", "E", "G", "H"]}
+# the real resolution: one model time unit = 4 ms (the stamp's own), F = 900 000 units = the real 3600 s; times sit on the
+# cut-off itself and one tick either side of it
+CONFIGS["T4"] = dict(Keys={1, 2}, Nodes={1, 2}, Sources={0, 1}, F=900000, Times={0, 1, 900001, 900002}, Counters={0}, MaxOps=4)
+CONFIGS["T4S"] = dict(Keys={1, 2}, Nodes={1, 2}, Sources={0}, F=900000, Times={0, 1, 899999, 900000, 900001}, Counters={0}, MaxOps=4)
+TIERS = {"quick": ["A", "AD", "B", "C", "P", "N3", "D3", "T4", "T4S"], "thorough": ["A", "AD", "B", "C", "P", "N3", "D3", "D", "E", "G", "H", "T4", "T4S"]}
 
 INVARIANTS = ["C04_LWW", "C08_StillRefused", "WellFormedInv"]
 PROPERTIES = ["C04_Return", "C08_PurgeInvisible"]
